@@ -124,6 +124,10 @@ def _gen_cases(rng, n):
         else:
             sol = P._bfs_path(r, c, conn, s, e, P.ORD1 if rng.random() < 0.5 else P.ORD2)
         out.append(dict(rows=r, cols=c, edges=edges, kind="solved", solution=sol, tag=tag))
+        if sol and rng.random() < 0.4:     # very short solutions: start = end, adjacent start/end, one cell in between
+            full = P._bfs_path(r, c, conn, s, e, P.ORD1) or sol
+            for L in (1, 2, 3):
+                if len(full) >= L: out.append(dict(rows=r, cols=c, edges=edges, kind="solved", solution=[list(x) for x in full[:L]], tag=tag + f"|len{L}"))
     return out
 
 
@@ -243,6 +247,22 @@ def _batch_checks(ctx, n_datasets):
             ctx.case(dict(getitem=i, cases=cases, opt=opt))
             if P._code_img(got[0]) != items[i][0] or P._code_img(got[1]) != items[i][1]:
                 ctx.violate(f"RasterizedMazeDataset[{i}] with options {opt} is not the input/target pair of maze {i}", dict(cases=cases, opt=opt, index=i), key="unlisted")
+        # the options of a LIVE dataset are switched and the same items requested again: they must follow the options as they are now
+        for _sw in range(2):
+            new = ctx.rng.choice([o for o in OPTS if o != opt])
+            try:
+                ds.cfg.remove_isolated_cells, ds.cfg.extend_pixels, ds.cfg.endpoints_as_open = new
+            except Exception:
+                break
+            for i in range(k):
+                got = np.asarray(ds[i]); want = _expected(cases[i], *new)
+                ctx.case(dict(getitem=i, cases=cases, opt=new, switched_from=opt))
+                if P._code_img(got[0]) != want[0] or P._code_img(got[1]) != want[1]:
+                    ctx.violate(f"RasterizedMazeDataset[{i}] after switching the dataset's options from {opt} to {new} (items had been requested before) "
+                                f"is not the input/target pair for the options as they are now", dict(cases=cases, opt=new, switched_from=opt, index=i), key="unlisted")
+                    break
+            opt = new
+        items = [_expected(c, *opt) for c in cases]
         for _j in range(4):
             idxs = ctx.rng.choice([None, [], [ctx.rng.randrange(-k - 1, k + 1) for _ in range(ctx.rng.randint(1, 6))],
                                    [ctx.rng.randrange(k) for _ in range(ctx.rng.randint(1, 6))], list(range(k))[::-1]])
